@@ -19,6 +19,7 @@ mod target;
 mod raster;
 mod clip;
 mod pipe;
+mod rand;
 
 use std::io::{BufRead, BufWriter, Write};
 
@@ -66,6 +67,7 @@ fn subsystem(name: &str) -> Option<(GenFn, ExecFn)> {
         "raster" => (raster::gen, raster::exec),
         "clip" => (clip::gen, clip::exec),
         "pipe" => (pipe::gen, pipe::exec),
+        "rand" => (rand::gen, rand::exec),
         _ => return None,
     })
 }
